@@ -80,12 +80,12 @@ Proof.
       { simpl. apply (proj1 (opens_set open (t_iters t) h (new_iter None) HO)). }
       rewrite R. eauto.
     + destruct Hv as [Hh Hv]. destruct (HO h Hh) as [it G]. rewrite G.
-      destruct (saf_iter_next t h it HS G) as [r [it' [kv [evs [E S']]]]]. rewrite E.
+      destruct (saf_iter_next t h it HS G) as [r [it' [kv [evs [E [S' _]]]]]]. rewrite E.
       match goal with |- context [run FX_ALL ?t1 _] => destruct (IHhs t1 open) as [outs [t'' R]]; auto end.
       { simpl. apply (proj2 (opens_set open (t_iters t) h it' HO)). }
       rewrite R. eauto.
     + destruct Hv as [Hh Hv]. destruct (HO h Hh) as [it G]. rewrite G.
-      destruct (saf_iter_free t h it HS G) as [r [evs [E S']]]. rewrite E.
+      destruct (saf_iter_free t h it HS G) as [r [evs [E [S' _]]]]. rewrite E.
       match goal with |- context [run FX_ALL ?t1 _] => destruct (IHhs t1 (remove Nat.eq_dec h open)) as [outs [t'' R]]; auto end.
       { simpl. apply opens_del. exact HO. }
       rewrite R. eauto.
